@@ -2,7 +2,7 @@
 from props import fblock, fmfile
 ID = "C07"
 LEVEL = "model_checking"
-MODULES = fmfile.modules()
+MODULES = dict(fmfile.modules(), fmedit=dict(harness=["fm_edit.cpp"], entries=("h_c06", "h_c03", "h_c11", "h_c14")))
 prepare = fblock.prepare
 BOUNDS = {
     "quick": {"block_types": "all registered (from Factory.cpp)", "version": "symbolic (file,user,stream) under the loader's acceptance predicate", "count_cap_B": 1, "input_bytes_L": 256, "budget_s_per_type": 8},
@@ -23,10 +23,18 @@ def jobs(tier, seed):
     for j in J:
         j["mod"] = "fblock"
     J += fmfile.jobs("h_file_fixedpoint", tier, sympos=True) + fmfile.jobs("h_file_repeat", tier, extra_args=[0])
+    # header tables after edit sequences: the C06 harness ends with the same walker (shares its job results with C06)
+    from props import c06
+    for j in c06.jobs(tier, seed):
+        if j["args"][2] == 1 or tier == "thorough":
+            j["mod"] = "fmedit"
+            J.append(j)
     return J
 
 
 def signature(job, v):
+    if job.get("mod") == "fmedit":
+        return "%s:%s" % (job["entry"], v["aid"])
     if job.get("mod") == "fmfile":
         top = next((f for f in v["stack"] if "nifly" in f), "")
         rc = v.get("user", {}).get("rc")
